@@ -1,6 +1,6 @@
 //! C07 — position and length bookkeeping through the public API.
 use crate::common::*;
-use indicatif::{ProgressBar, ProgressDrawTarget};
+use indicatif::{ProgressBar, ProgressDrawTarget, ProgressFinish};
 
 const VALS: [u64; 9] = [0, 1, 2, 3, 1 << 32, 1 << 63, u64::MAX - 2, u64::MAX - 1, u64::MAX];
 
@@ -12,8 +12,13 @@ pub fn run(seed: u64, tier: &str, out: &mut Out) {
         let visible = rng.chance(1, 2);
         let rec = Recorder::new(5, 20, false);
         let pb = ProgressBar::with_draw_target(len0, if visible { ProgressDrawTarget::term_like(Box::new(rec.clone())) } else { ProgressDrawTarget::hidden() });
+        // the configured finish behaviour: it moves the position to the length (m) or keeps it (k)
+        let fin_kind = rng.below(6);
+        let moves = fin_kind < 4;
+        let pb = match fin_kind { 0 => pb, 1 => pb.with_finish(ProgressFinish::AndLeave), 2 => pb.with_finish(ProgressFinish::WithMessage("done".into())),
+            3 => pb.with_finish(ProgressFinish::AndClear), 4 => pb.with_finish(ProgressFinish::Abandon), _ => pb.with_finish(ProgressFinish::AbandonWithMessage("gone".into())) };
         let k = rng.range(1, 20);
-        let mut case = format!("C07 {}", len0.map_or("none".into(), |l| l.to_string()));
+        let mut case = format!("C07 {} {}", len0.map_or("none".into(), |l| l.to_string()), if moves { "m" } else { "k" });
         let mut obs: Vec<String> = Vec::new();
         let mut verdict = "ok".to_string();
         // independent oracle: wrapping position, saturating length
@@ -22,7 +27,9 @@ pub fn run(seed: u64, tier: &str, out: &mut Out) {
             let v = if rng.chance(3, 4) { *rng.pick(&VALS) } else { rng.next() };
             let r = std::panic::catch_unwind(std::panic::AssertUnwindSafe(|| match rng.clone().below(10) { _ => () }));
             let _ = r;
-            match rng.below(10) {
+            match rng.below(13) {
+                10 => { if rng.chance(1, 2) { case += " ; resetelapsed"; pb.reset_elapsed(); } else { case += " ; reseteta"; pb.reset_eta(); } }
+                11 | 12 => { case += " ; finishstyle"; pb.finish_using_style(); if moves { if let Some(l) = olen { opos = l; } } ofin = true; }
                 0 | 1 => { case += &format!(" ; inc {v}"); pb.inc(v); opos = opos.wrapping_add(v); }
                 2 => { case += &format!(" ; dec {v}"); pb.dec(v); opos = opos.wrapping_sub(v); }
                 3 => { case += &format!(" ; setpos {v}"); pb.set_position(v); opos = v; }
